@@ -122,6 +122,16 @@ impl V {
             _ => self.to_idl(),
         }
     }
+    /// like to_idl, but every record lists its fields in DESCENDING id order (a hand-built IDLValue need not be sorted)
+    pub fn to_idl_rev(&self) -> IDLValue {
+        match self {
+            V::Opt(Some(v)) => IDLValue::Opt(Box::new(v.to_idl_rev())),
+            V::Vec(vs) => IDLValue::Vec(vs.iter().map(|v| v.to_idl_rev()).collect()),
+            V::Rec(fs) => IDLValue::Record(fs.iter().rev().map(|(i, v)| IDLField { id: Label::Id(*i), val: v.to_idl_rev() }).collect()),
+            V::Variant(i, v) => IDLValue::Variant(VariantValue(Box::new(IDLField { id: Label::Id(*i), val: v.to_idl_rev() }), 0)),
+            _ => self.to_idl(),
+        }
+    }
     pub fn size(&self) -> usize {
         1 + match self {
             V::Opt(Some(v)) | V::Variant(_, v) => v.size(),
